@@ -29,6 +29,52 @@ const SCALARS: [u32; 16] = [
 
 /// UTF-8 string of exactly `len` octets (len >= 0), mixing 1-4 octet scalars.
 pub fn utf8_exact(r: &mut Rng, len: usize) -> String {
+    if len > 0 && r.chance(1, 8) {
+        return utf8_edgy(r, len);
+    }
+    utf8_plain(r, len)
+}
+
+/// Text of exactly `len` octets with content a lenient peer might "clean up": trailing / leading
+/// NULs (C strings), whitespace and line ends at either end, all-NUL, a byte-order mark.
+fn utf8_edgy(r: &mut Rng, len: usize) -> String {
+    let tails: [&str; 8] = ["\0", "\0\0", "\0\0\0", " ", "\t", "\r\n", "\n", "\u{7f}"];
+    let heads: [&str; 5] = ["\0", " ", "\u{feff}", "\r\n", "\0\0"];
+    match r.below(4) {
+        0 => "\0".repeat(len),
+        1 => {
+            let t = *r.pick(&tails);
+            if t.len() > len {
+                return "\0".repeat(len);
+            }
+            let mut s = utf8_plain(r, len - t.len());
+            s.push_str(t);
+            s
+        }
+        2 => {
+            let h = *r.pick(&heads);
+            if h.len() > len {
+                return " ".repeat(len);
+            }
+            let mut s = String::from(h);
+            s.push_str(&utf8_plain(r, len - h.len()));
+            s
+        }
+        _ => {
+            let h = *r.pick(&heads);
+            let t = *r.pick(&tails);
+            if h.len() + t.len() > len {
+                return "\0".repeat(len);
+            }
+            let mut s = String::from(h);
+            s.push_str(&utf8_plain(r, len - h.len() - t.len()));
+            s.push_str(t);
+            s
+        }
+    }
+}
+
+fn utf8_plain(r: &mut Rng, len: usize) -> String {
     let mut s = String::with_capacity(len);
     while s.len() < len {
         let left = len - s.len();
